@@ -7,6 +7,12 @@ HOOK_COMMITS = subprocess.run(["git", "-C", "/repo", "log", "--format=%H %s", "-
 
 # pid -> dict(category, text, note, technique, design_ref) ; only implemented checks are listed here
 CLAIMED = {
+    "C01": dict(
+        category="exploration",
+        technique="exhaustive enumeration of grid point (multi)sets x construction configurations through the real constructors, judged by exact-arithmetic and brute-force reference models",
+        text="Every subset of small exact grids per dimension (all 466 subsets of the 3x3 grid under the full 864-configuration product; subsets of the 4x4 grid, the unit cube (+centre), D=4/5 cube alphabets and a general-position moment-curve family under every single-axis deviation from the default configuration), every ordered arrangement for the Input ordering, and multiset / 2^+-40 scale / 2^30 shift / near-duplicate / clustered variants are built through both kernels in the release and the debug-assertion profile. Every Ok result is re-validated from its raw cells by an independent reference (Levels 1-3 at the configured guarantee incl. completion-time vertex links, convex embedding, exact empty-circumsphere outside the tolerance band, vertex/UUID/data/perturbation accounting, statistics identities); panics are violations. Exhaustive over the stated alphabets; nothing sampled.",
+        note="Trusts the harness's exact arithmetic and reference validators; verdicts cover the listed alphabets only. Known genuine defects (non-Delaunay results certified in D>=4 and for one 2-D clustered family) are listed in known_findings.json by (dimension, kernel, input family, mechanism) and reported as KNOWN-FINDING lines.",
+        design_ref="DESIGN.md section 4 (C01)"),
     "C12": dict(
         category="exploration",
         technique="exhaustive enumeration of grid tuples x vertex orders x scale variants against an exact (bigint) sign oracle",
